@@ -256,20 +256,32 @@ class TunnelCommunity(Community):
         if isinstance(crypto_endpoint, PythonCryptoEndpoint):
             self.endpoint.remove_listener(crypto_endpoint)
 
-        removals = []
-        for circuit_id in list(self.circuits.keys()):
-            removals.append(self.remove_circuit(circuit_id, "unload", remove_now=True, destroy=DESTROY_REASON_SHUTDOWN))
-        for circuit_id in list(self.relay_from_to.keys()):
-            removals.append(self.remove_relay(circuit_id, "unload", remove_now=True, destroy=DESTROY_REASON_SHUTDOWN))
-        for circuit_id in list(self.exit_sockets.keys()):
-            removals.append(self.remove_exit_socket(circuit_id, "unload", remove_now=True,
+        async def remove_all() -> None:
+            removals = []
+            for circuit_id in list(self.circuits.keys()):
+                removals.append(self.remove_circuit(circuit_id, "unload", remove_now=True,
                                                     destroy=DESTROY_REASON_SHUTDOWN))
-        # The removals are tasks (they wait for remove_tunnel_delay): let them finish, otherwise shutting down the
-        # task manager below cancels them and the exit sockets are never closed.
-        if removals:
-            await gather(*removals, return_exceptions=True)
+            for circuit_id in list(self.relay_from_to.keys()):
+                removals.append(self.remove_relay(circuit_id, "unload", remove_now=True,
+                                                  destroy=DESTROY_REASON_SHUTDOWN))
+            for circuit_id in list(self.exit_sockets.keys()):
+                removals.append(self.remove_exit_socket(circuit_id, "unload", remove_now=True,
+                                                        destroy=DESTROY_REASON_SHUTDOWN))
+            # The removals are tasks (they wait for remove_tunnel_delay): let them finish, otherwise shutting down the
+            # task manager below cancels them and the exit sockets are never closed.
+            if removals:
+                await gather(*removals, return_exceptions=True)
+
+        await remove_all()
 
         await self.request_cache.shutdown()
+
+        # A handler that was already running (or scheduled) when the unload started may have joined a circuit while we
+        # were waiting above: remove what appeared in the meantime, nothing else will close it once we are gone.
+        for _ in range(3):
+            if not (self.circuits or self.relay_from_to or self.exit_sockets):
+                break
+            await remove_all()
 
         await super().unload()
 
